@@ -141,15 +141,15 @@ type Span struct {
 }
 
 type Matcher struct {
-	Text    string
-	Prog    *gen.Program
-	Policy  Policy
-	Steps   int
-	Budget  int
-	GaveUp  bool
-	subs    map[string][]gen.Node
-	globals map[string]*gen.Global
-	depth   int
+	Text     string
+	Prog     *gen.Program
+	Policy   Policy
+	Steps    int
+	Budget   int
+	GaveUp   bool
+	subs     map[string][]gen.Node
+	globals  map[string]*gen.Global
+	depth    int
 	lastTree map[string]Val
 }
 
@@ -204,23 +204,14 @@ func classHas(kind string, b byte) bool {
 	return false
 }
 
+// foldEq: caseless equality of two equally long byte strings = Unicode simple case folding (strings.EqualFold),
+// which is plain ASCII folding on ASCII. The language documentation leaves `caseless` undescribed (TODO); this is
+// what the pinned implementation does and what the property's "pattern as written" is taken to mean.
 func foldEq(a, b string) bool {
 	if len(a) != len(b) {
 		return false
 	}
-	for i := 0; i < len(a); i++ {
-		x, y := a[i], b[i]
-		if x >= 'A' && x <= 'Z' {
-			x += 32
-		}
-		if y >= 'A' && y <= 'Z' {
-			y += 32
-		}
-		if x != y {
-			return false
-		}
-	}
-	return true
+	return strings.EqualFold(a, b)
 }
 
 func (m *Matcher) anchor(kind string, p int) bool {
